@@ -68,7 +68,7 @@ Example C09_iteration_values_depend_on_capacity :
               OIter 0 IEachPair [(ACompute [100]%N 5, false); (APut [99]%N 9, false)]; OGet 0 [99]%N] in
   nth 4 (snd (run [] (h 4%nat))) RUnit = RIter [[97]%N; [98]%N; [99]%N] [1; 2; 9]%Z true /\
   nth 4 (snd (run [] (h 3%nat))) RUnit = RIter [[97]%N; [98]%N; [99]%N] [1; 2; 3]%Z true /\
-  nth 5 (snd (run [] (h 4%nat))) RUnit = RVal (Some 9%Z) /\ nth 5 (snd (run [] (h 3%nat))) RUnit = RVal (Some 9%Z).
+  nth 5 (snd (run [] (h 4%nat))) RUnit = RVal (Some (VInt 9)) /\ nth 5 (snd (run [] (h 3%nat))) RUnit = RVal (Some (VInt 9)).
 Proof. vm_compute. auto. Qed.
 
 (* Non-vacuity of the iteration theorems: "remove every visited key" visits a, b, c, d and leaves the hash empty;
@@ -87,7 +87,7 @@ Proof. vm_compute. auto. Qed.
 
 Theorem C09_compute_producer_puts_same_key_refuted :
   exists ops, ops_ok ops = false /\
-    snd (run [] ops) = [RObj 0; RVal (Some 6); RKeys [[97%N]; [97%N]]; RVal (Some 6); RKeys [[97%N]]; RBool false].
+    snd (run [] ops) = [RObj 0; RVal (Some (VInt 6)); RKeys [[97%N]; [97%N]]; RVal (Some (VInt 6)); RKeys [[97%N]]; RBool false].
 Proof. exact compute_producer_puts_same_key_refuted. Qed.
 Print Assumptions C09_compute_producer_puts_same_key_refuted.
 
